@@ -689,13 +689,16 @@ def rule_kind_compressed(ctx, units=None):
             idx = _strip_cast(M[2][1])
             n += 1
             if idx[0] != 'local':
-                obs.append(Ob('KIND', f, i, 'segment index derived from a LAST_LE position', f"index `{fmt_term(idx)}` is not a local", UNDECIDED, arm='index'))
-                continue
-            init = f.single_def(idx[2])
-            if not init:
-                obs.append(Ob('KIND', f, i, 'segment index derived from a LAST_LE position', f"index `{idx[1]}` has several definitions", UNDECIDED, arm='index'))
-                continue
-            it = _strip_cast(f.term(init, inline=False))
+                # the index expression itself (it reached the model through the parameters of inlined helpers): the typestate
+                # of the cursor it is computed from is taken at the evaluation site
+                init = i
+                it = idx
+            else:
+                init = f.single_def(idx[2])
+                if not init:
+                    obs.append(Ob('KIND', f, i, 'segment index derived from a LAST_LE position', f"index `{idx[1]}` has several definitions", UNDECIDED, arm='index'))
+                    continue
+                it = _strip_cast(f.term(init, inline=False))
             sh = 0
             if it[0] == 'op' and len(it) == 4 and it[1] == '-' and it[3] == ('lit', 1):
                 sh = -1
@@ -722,7 +725,10 @@ def rule_kind_compressed(ctx, units=None):
             keyok = True
             if ok:
                 # binary searches must use the clamped key; the forward scan may use the raw key
-                kt = norm_tparams(k[1])
+                kt = _strip_cast(k[1])
+                if kt[0] == 'local' and len(kt) == 3 and f.single_def(kt[2]):
+                    kt = f.term(f.single_def(kt[2]), inline=True)      # `auto k = std::max(first_key, key)` compared in the scan
+                kt = norm_tparams(kt)
                 via_scan = k[2] is None
                 keyok = is_clamp(kt, keyname) or (via_scan and kt == ('param', keyname))
                 arm += ':scan' if via_scan else ':binary'
